@@ -14,7 +14,7 @@
     Nothing else is assumed about [iso]: in particular the theorems cover the transitivity shortcut of the code
     (an item is compared only with the FIRST member of each class / with one stored template per class). *)
 From Coq Require Import List NArith ZArith Bool Arith Permutation.
-From SK Require Import lib.LGraph lib.C13_Partition model.C13_Model model.C13_Trace proof.C13_Proof proof.C13_More proof.C13_Iso proof.C13_Templates proof.C13_Clusters proof.C13_Before proof.C13_Trace proof.C13_TraceExact.
+From SK Require Import lib.LGraph lib.C13_Partition model.C13_Model model.C13_Trace proof.C13_Proof proof.C13_More proof.C13_Iso proof.C13_Templates proof.C13_Clusters proof.C13_Before proof.C13_Trace proof.C13_TraceExact proof.C13_Raw.
 Import ListNotations.
 
 (** 1. GraphCluster.fit / iterative_cluster: every item gets exactly one class (the list of classes has the length
@@ -491,3 +491,70 @@ Theorem C13_gc_trace_exact_meaning :
   (forall i k x r, after i ((k, x) :: r) = if Nat.eqb k i then Some (x, r) else after i r).
 Proof. exact (fun mode => conj (fun _ _ => eq_refl) (conj (fun _ _ _ _ _ => eq_refl) (conj (fun _ _ _ _ => eq_refl) (conj (fun _ => eq_refl) (fun _ _ _ _ => eq_refl))))). Qed.
 Print Assumptions C13_gc_trace_exact_meaning.
+
+(** ** (round 5) THE PARTITION THEOREM ON THE CALLER'S GRAPHS.  Items are handed to the model as raw attribute dictionaries
+    ([ritem], [mk_item c] selects the configured names).  [raw_isomorphic c g1 g2] (written out in the first theorem): equal
+    atom counts and a bijection of the atoms that preserves the configured labels after the defaults
+    (generic_node_match(names, defaults, eq)) and presence + configured attribute (default 1) of every bond
+    (generic_edge_match(edge_attribute, 1, eq)).  GraphCluster.fit gives every item exactly one class, and two items share a
+    class IFF their raw graphs are isomorphic in that sense -- for any number of configured labels, provided node ids are
+    distinct and the pre-grouping attribute (if any) is equal on isomorphic items OF THE LIST. *)
+Theorem C13_raw_isomorphic_meaning :
+  forall (c : ccfg) (g1 g2 : rgraph13),
+  raw_isomorphic c g1 g2 <->
+  length (gnodes g1) = length (gnodes g2) /\
+  exists f : N -> N,
+    NoDup (map f (node_ids g2)) /\ incl (map f (node_ids g2)) (node_ids g1) /\
+    (forall u, In u (node_ids g2) ->
+       match label g1 (f u), label g2 u with
+       | Some a, Some b => node_match_raw13 (cc_names c) (cc_defs c) a b = true
+       | _, _ => False
+       end) /\
+    (forall u v, In u (node_ids g2) -> In v (node_ids g2) -> u <> v ->
+       match LGraph.adj g2 u v, LGraph.adj g1 (f u) (f v) with
+       | Some b, Some b' => edge_match_raw13 (cc_edge c) b' b = true
+       | None, None => True
+       | _, _ => False
+       end).
+Proof. exact (fun c g1 g2 => iff_refl _). Qed.
+Print Assumptions C13_raw_isomorphic_meaning.
+
+Theorem C13_partition_raw :
+  forall (c : ccfg) (mode : attr_mode) (data : list ritem),
+  length (cc_defs c) = length (cc_names c) ->
+  (forall x, In x data -> NoDup (node_ids (ri_graph x))) ->
+  (forall x y, In x data -> In y data -> raw_isomorphic c (ri_graph x) (ri_graph y) ->
+               gc_key mode (mk_item c x) = gc_key mode (mk_item c y)) ->
+  let items := map (mk_item c) data in
+  let classes := gc_fit (item_iso true (cc_defs c)) mode items in
+  length classes = length data /\
+  forall i j x y, nth_error data i = Some x -> nth_error data j = Some y ->
+  exists ci cj, nth_error classes i = Some (Some ci) /\ nth_error classes j = Some (Some cj) /\
+                (ci = cj <-> raw_isomorphic c (ri_graph x) (ri_graph y)).
+Proof. exact partition_raw. Qed.
+Print Assumptions C13_partition_raw.
+
+(** the incremental clause of the property on the caller's graphs: a NEW raw item classified ([lib_check]) against the templates
+    that an earlier [fit] (one-shot + sampled representatives, or batched; any batch size >= 1, any in-range sampler choices)
+    returned gets the class of EXACTLY the earlier items its raw graph is isomorphic to; isomorphic to none of them, it gets a
+    class number no earlier item has and is appended as the representative of that class *)
+Theorem C13_incremental_raw :
+  forall (c : ccfg) (mode : attr_mode) (data : list ritem) (bs : option nat) (picks : list nat) (y : ritem),
+  length (cc_defs c) = length (cc_names c) ->
+  (forall x, In x (y :: data) -> NoDup (node_ids (ri_graph x))) ->
+  (forall x x', In x (y :: data) -> In x' (y :: data) -> raw_isomorphic c (ri_graph x) (ri_graph x') ->
+                gc_key mode (mk_item c x) = gc_key mode (mk_item c x')) ->
+  match bs with None => True | Some b => 1 <= b end ->
+  let iso := item_iso true (cc_defs c) in
+  let items := map (mk_item c) data in
+  Forall2 (fun k p => p < length (members items (map class_z (gc_fit iso mode items)) k))
+          (first_keys [] (map class_z (gc_fit iso mode items))) picks ->
+  let cs := fst (fit iso mode items [] bs picks) in
+  let ts := snd (fit iso mode items [] bs picks) in
+  let cl := fst (lib_check iso mode (mk_item c y) ts) in
+  (forall i x, nth_error data i = Some x ->
+     (nth_error cs i = Some cl <-> raw_isomorphic c (ri_graph x) (ri_graph y))) /\
+  ((forall x, In x data -> ~ raw_isomorphic c (ri_graph x) (ri_graph y)) ->
+   ~ In cl cs /\ snd (lib_check iso mode (mk_item c y) ts) = ts ++ [(mk_item c y, cl)]).
+Proof. exact incremental_raw. Qed.
+Print Assumptions C13_incremental_raw.
